@@ -47,7 +47,7 @@ from harness.monitors import contracts
 ID = "C20"
 NO = 20
 RULE = ("seeded coordinate sets: n=1..9 integer (x,y) coordinates drawn clustered / scattered / single-parity, side length "
-        "log-uniform 0.05..20, offsets from {0, N(0,side), U(-100,100)}, flipped in {False,True}; each set is checked at "
+        "log-uniform 0.05..20 (every 6th set: 3e-6..1e-3), offsets from {0, N(0,side), U(-100,100)}, flipped in {False,True}; each set is checked at "
         "depth 0..3 of repeated up-sampling in both representations; plus for_limits_and_scale sets of both classes. A "
         "case = one generated set with all its levels; distinct = hash of (kind, coordinates, side, offsets, flipped | "
         "limits, scale); non-trivial = at least two triangles (single triangles are run but counted trivial)")
@@ -439,6 +439,12 @@ def run_coord(ctx, u):
         pts, fam = coordinate_set(rng)
         side = float(np.exp(rng.uniform(np.log(0.05), np.log(20.0)))) if rng.random() < 0.8 else float(rng.choice([1.0, 0.5, 2.0]))
         om = int(rng.integers(3))
+        fine = (i % 6 == 5)
+        if fine:
+            # fine lattices (side 3e-6 .. 1e-3): absolute tolerances hidden in containment / degeneracy tests show up here;
+            # offsets stay of the order of the side so that coordinates are resolved far below the vertex tolerance
+            side = float(np.exp(rng.uniform(np.log(3e-6), np.log(1e-3))))
+            om = int(rng.integers(2))
         if om == 0:
             xo, yo = 0.0, 0.0
         elif om == 1:
@@ -453,7 +459,7 @@ def run_coord(ctx, u):
             continue
         run_set(ctx, "coord", C, True, rng, depth, npoints=3 if ctx.tier == "quick" else 6)
         par = (pts.sum(axis=1) % 2)
-        cls = ["family_" + fam, "flipped" if flipped else "unflipped", ("offset_zero", "offset_side", "offset_large")[om],
+        cls = ["family_" + fam, "flipped" if flipped else "unflipped", ("offset_zero", "offset_side", "offset_large")[om], "side_fine" if fine else "side_regular",
                "parity_mixed" if 0 < par.sum() < len(par) else ("parity_odd_only" if par.all() else "parity_even_only")]
         if (pts < 0).any():
             cls.append("negative_coordinates")
